@@ -200,3 +200,16 @@ Proof.
     + intros H; injection H; auto.
   - intros a. split; [apply I4is_zero_true | intros ->; reflexivity].
 Qed.
+
+(* sm9_z256_fp2_div: a / b = a * b^-1, i.e. (a / b) * b = a when the norm of b is a unit *)
+Lemma fp2_div_ok : prime p -> forall a b : T2, norm2 b mod p <> 0 -> canon2 (I2mul (I2div a b) b) = canon2 a.
+Proof.
+  intros Hp a b Hn. apply rel2_canon.
+  pose proof (I2inv_ok (fermat_little p Hp) b b (r2 b) Hn) as Hi.
+  unfold I2div.
+  eapply rel2_trans; [apply I2mul_ok; [apply I2mul_ok; apply r2 | apply r2] |].
+  (* (a * binv) * b = a * (b * binv) ~ a * 1 *)
+  eapply rel2_trans; [apply rel2_eq_r with (b := S2mul (S2mul a (I2inv b)) b) (c := S2mul a (S2mul b (I2inv b))); [apply rel2_refl | ring] |].
+  eapply rel2_trans; [apply S2mul_rel; [apply r2 | exact Hi] |].
+  apply rel2_eq_r with (b := S2mul a S2one) (c := a); [apply rel2_refl | ring].
+Qed.
